@@ -3,6 +3,7 @@ Filter expression support for predicate pushdown and partition pruning.
 Converts user-friendly filter syntax to PyArrow filter expressions.
 """
 
+import struct
 from dataclasses import dataclass
 from enum import Enum
 from typing import TYPE_CHECKING, Any, Dict, List, Optional
@@ -240,6 +241,21 @@ def prune_files_by_bounds(
     return pruned
 
 
+def _float32_rounding_in_range(value: Any, file_min: Any, file_max: Any) -> bool:
+    """True if `value`, rounded to a 32-bit float, lies within the bounds.
+
+    Anything that cannot be rounded (not a number, out of float32 range) is
+    reported as possibly in range: the caller must not prune on it.
+    """
+    if isinstance(value, bool) or not isinstance(value, (int, float)):
+        return False
+    try:
+        rounded = struct.unpack("f", struct.pack("f", value))[0]
+    except (OverflowError, struct.error):
+        return True
+    return bool(file_min <= rounded <= file_max)
+
+
 def _file_may_match(
     data_file: "DataFile",
     expressions: List[FilterExpression],
@@ -318,8 +334,16 @@ def _file_may_match(
                 if expr.value:
                     # A NaN in the list matches NaN rows (is_in semantics), and
                     # NaN rows are invisible to the bounds: never prune on it.
+                    # is_in casts the value set to the column's type: on a
+                    # 32-bit float column 0.1 matches the rows holding
+                    # float32(0.1), which is NOT inside [0.1, 0.1] as a double.
+                    # So a literal also counts when its float32 rounding falls
+                    # within the bounds (merely conservative for other columns).
                     has_possible_match = any(
-                        v != v or file_min <= v <= file_max for v in expr.value
+                        v != v
+                        or file_min <= v <= file_max
+                        or _float32_rounding_in_range(v, file_min, file_max)
+                        for v in expr.value
                     )
                     if not has_possible_match:
                         return False
